@@ -203,7 +203,8 @@ Proof.
   unfold temporal_change in Hc. simpl in Hc. rewrite Hinv in Hc.
   assert (Hwf2 := shift_by_WF x (- k) Hwf).
   assert (Hnv2 : s_nv x = s_nv (shift_by A x (- k))) by (unfold shift_by; rewrite Hst; reflexivity).
-  destruct (row_at_binop A miss_law chg x (shift_by A x (- k)) c Hwf Hwf2 Hnv2 Hc)
+  assert (Hne0 : s_start x = None -> s_start (shift_by A x (- k)) = None -> False) by (rewrite Hst; discriminate).
+  destruct (row_at_binop A miss_law chg x (shift_by A x (- k)) c Hwf Hwf2 Hnv2 Hne0 Hc)
     as (lo & hi & Hlo & Hhi & Hwfc & Hnvc & Hrowc).
   assert (Elo : lo = st).
   { unfold shift_by in Hlo. rewrite Hst in Hlo. simpl in Hlo. inversion Hlo. lia. }
@@ -290,7 +291,8 @@ Proof.
   unfold temporal_change in Hc. simpl in Hc. rewrite Hinv in Hc.
   assert (Hwf2 := shift_by_WF x (- k) Hwf).
   assert (Hnv2 : s_nv x = s_nv (shift_by A x (- k))) by (unfold shift_by; rewrite Hst; reflexivity).
-  destruct (row_at_binop A miss_law chg x (shift_by A x (- k)) c Hwf Hwf2 Hnv2 Hc)
+  assert (Hne0 : s_start x = None -> s_start (shift_by A x (- k)) = None -> False) by (rewrite Hst; discriminate).
+  destruct (row_at_binop A miss_law chg x (shift_by A x (- k)) c Hwf Hwf2 Hnv2 Hne0 Hc)
     as (lo & hi & Hlo & Hhi & Hwfc & Hnvc & Hrowc).
   assert (Elo : lo = st).
   { unfold shift_by in Hlo. rewrite Hst in Hlo. simpl in Hlo. inversion Hlo. lia. }
